@@ -123,7 +123,7 @@ Definition tagging_ph (p : phase) : bool :=
   match p with TagP0 _ | TagP1 _ => true | _ => false end.
 
 Record Inv (st : state) : Prop := {
-  i_closed : closed_nodes (dst st);
+  i_closed : closed_nodes d0 -> closed_nodes (dst st);
   i_present : forall n, present_ph (ph st n) = true -> has g (dst st) n = true;
   i_settled : forall n, settled_ph (ph st n) = true -> forall x, In x (succ' g n) -> ph st x = Done;
   i_bound : forall n, ph st n <> Idle -> n < g_n g;
@@ -162,9 +162,9 @@ Proof.
   simpl. apply andb_false_r.
 Qed.
 
-Lemma init_inv : closed_nodes d0 -> Inv (init c d0).
+Lemma init_inv : Inv (init c d0).
 Proof.
-  intro Hc. constructor; simpl; intros; try discriminate; try congruence; auto.
+  constructor; simpl; intros; try discriminate; try congruence; auto.
   - destruct H0 as [H0|[H0|[_ [sk H0]]]]; discriminate.
 Qed.
 
@@ -227,9 +227,10 @@ Proof.
   intros I H Hx. destruct (dst_step st e st' I H) as [->|[n [rd [-> _]]]]; auto using has_mono.
 Qed.
 
-Lemma pres_closed st e st' : Inv st -> step g c st e = Some st' -> closed_nodes (dst st').
+Lemma pres_closed st e st' : Inv st -> step g c st e = Some st' ->
+  closed_nodes d0 -> closed_nodes (dst st').
 Proof.
-  intros I H. destruct (dst_step st e st' I H) as [->|[n [rd [-> [Hp _]]]]]; [apply (i_closed st I)|].
+  intros I H Hc0. destruct (dst_step st e st' I H) as [->|[n [rd [-> [Hp _]]]]]; [now apply (i_closed st I)|].
   intros m x [<-|Hm] Hx.
   - apply has_mono. apply (i_present st I).
     rewrite (i_settled st I n) with (x := x); auto. now rewrite Hp.
@@ -472,9 +473,9 @@ Lemma closure_lemma tr st : closed_nodes d0 -> mt_consistent ->
   forall n, reach (c_root c) n -> has g (dst st) n = true.
 Proof.
   intros Hc Hmt Ha Hr n Hn. unfold accepts in Ha.
-  pose proof (run_inv tr _ _ (init_inv Hc) Ha) as I.
+  pose proof (run_inv tr _ _ init_inv Ha) as I.
   destruct (run_ret_true tr _ _ Ha eq_refl Hr) as [Hd _].
-  eapply reach_closed; eauto using (i_closed st I).
+  eapply reach_closed; eauto using (i_closed st I Hc).
   apply (i_present st I). now rewrite Hd.
 Qed.
 
@@ -529,7 +530,7 @@ Lemma copy_result_lemma tr st fuel : closed_nodes d0 -> mt_consistent ->
 Proof.
   intros Hc Hmt Hf Ha Hr n.
   pose proof (closure_lemma tr st Hc Hmt Ha Hr) as CL.
-  unfold accepts in Ha. pose proof (run_inv tr _ _ (init_inv Hc) Ha) as I.
+  unfold accepts in Ha. pose proof (run_inv tr _ _ init_inv Ha) as I.
   unfold copy_result. rewrite has_app.
   apply Bool.eq_iff_eq_true. rewrite orb_true_iff. split.
   - intro H. apply has_spec in H as [m [Hm Hk]].
@@ -546,12 +547,12 @@ End Rank.
 
 (* ---- the tag ---- *)
 
-Lemma tagged_lemma tr st : closed_nodes d0 ->
+Lemma tagged_lemma tr st :
   accepts g c d0 tr = Some st -> returned st = Some true -> c_mode c <> MGraph ->
   tag st = Some (c_root c).
 Proof.
-  intros Hc Ha Hr Hm. unfold accepts in Ha.
-  pose proof (run_inv tr _ _ (init_inv Hc) Ha) as I.
+  intros Ha Hr Hm. unfold accepts in Ha.
+  pose proof (run_inv tr _ _ init_inv Ha) as I.
   destruct (run_ret_true tr _ _ Ha eq_refl Hr) as [Hd _].
   destruct (i_tagroot st I) as [Hn|Hs]; auto.
   exfalso. apply (i_tagged st I Hm); auto.
@@ -566,13 +567,12 @@ End Inv.
 
 Lemma copy_tagged_lemma (g : graph) (dflt opt : Z) (refpusher : bool) (root : node)
       (cached0 d0 : list node) (tags0 : str -> option node) (srcRef dstRef : str) tr st :
-  closed_nodes g d0 ->
   accepts g (copy_cfg dflt opt refpusher root cached0) d0 tr = Some st ->
   returned st = Some true ->
   tags_after tags0 (eff_ref srcRef dstRef) st (eff_ref srcRef dstRef) = Some root.
 Proof.
-  intros Hc Ha Hr. unfold tags_after. rewrite str_eqb_refl.
-  rewrite (tagged_lemma g _ d0 tr st Hc Ha Hr); [reflexivity|].
+  intros Ha Hr. unfold tags_after. rewrite str_eqb_refl.
+  rewrite (tagged_lemma g _ d0 tr st Ha Hr); [reflexivity|].
   unfold copy_cfg. simpl. destruct refpusher; discriminate.
 Qed.
 
@@ -627,4 +627,12 @@ Proof.
   - apply mt_consistent_inj. auto.
   - intros n x. destruct n as [|[|[|[|n]]]]; simpl; intuition lia.
   - eexists. split; [vm_compute; reflexivity|]. repeat split; reflexivity.
+Qed.
+
+(* for C02 (built on top of this file): the destination stays link-closed at every
+   instant of every accepted trace prefix, successful or not *)
+Lemma closed_always_lemma (g : graph) (c : cfg) (d0 : list node) tr st :
+  closed_nodes g d0 -> accepts g c d0 tr = Some st -> closed_nodes g (dst st).
+Proof.
+  intros Hc Ha. exact (i_closed g c d0 st (run_inv g c d0 tr _ _ (init_inv g c d0) Ha) Hc).
 Qed.
